@@ -509,6 +509,8 @@ OBLIGATIONS = [
     ('C04std', 'Q', 'Chk.C04std', 'quantityEntries'),
     ('C02unit', 'U', 'Chk.C02unit', 'unitEntries'),
     ('C02class', 'Q', 'Chk.C02class', 'quantityEntries'),
+    ('C10dir', 'Q', 'Chk.C10dir', 'quantityEntries'),
+    ('C10mag', 'Q', 'Chk.C10mag', 'quantityEntries'),
     ('C14cmpQ', 'Q', 'Chk.C14cmp', 'quantityEntries'),
     ('C14cmpM', 'M', 'Chk.C14cmp', 'modelEntries'),
     ('C16cast', 'Q', 'Chk.C16cast', 'quantityEntries'),
